@@ -24,7 +24,7 @@ from lib import impl
 ALLOWED_AXIOMS = []
 TRUSTED = [
     "scipy KDTree.count_neighbors is exercised (L1) not modelled; the model starts from its documented semantics (cumulative: d<=r_k; else (r_{k-1}, r_k], first bin d<=r_0)",
-    "angles per scale and bin (get_angle_radian), the merged grid (get_ang_bins) and chord radii (AngularDistances.to_3d) are taken from the implementation as tables; their correctness is C15 / C14",
+    "angles per scale and bin (get_angle_radian) are compared (rel. 1e-11) with scale / distance written out in the harness on its own astropy cosmology instance (default, unnamed FlatLambdaCDM, clones; varied within one process) and then taken as tables, like the merged grid (get_ang_bins) and chord radii (AngularDistances.to_3d), whose correctness is C15 / C14; astropy's distance integrals are trusted",
     "harness: integer scaling of unit vectors, near-tie filter, classification of a failing cell",
 ]
 ASSUMPTIONS = [
@@ -250,7 +250,13 @@ def l3_spec(rng, kind_hint=None):
         zmin = rng.choice([1.7, 2.0]); zmax = rng.choice([4.0, 6.0]); unit = rng.choice(["kpc", "Mpc"])
     else:
         zmin = rng.choice([0.1, 0.2, 0.5]); zmax = zmin + rng.choice([0.2, 0.5, 1.0])
-    return dict(region=region[0], ra0=region[1], dec0=region[2], flavour=flavour, unit=unit, nbins=nb, zmin=zmin, zmax=zmax,
+    # the cosmology converting distances to angles: the default, unnamed FlatLambdaCDM instances, a clone that
+    # keeps the default's name (successive cases of one run use different ones in one process)
+    cosmo = None
+    if unit in ("kpc", "Mpc", "kpc/h", "Mpc/h"):
+        cosmo = rng.choice([None, None, ["flat", 50.0, 0.3], ["flat", 70.0, 0.25], ["flat", 100.0, 0.4], ["flat", 85.0, 0.15],
+                            ["clone", 55.0], ["clone", 90.0]])
+    return dict(region=region[0], ra0=region[1], dec0=region[2], flavour=flavour, unit=unit, nbins=nb, zmin=zmin, zmax=zmax, cosmo=cosmo,
                 closed=rng.choice(["right", "left"]), auto=rng.random() < 0.4, npatch=rng.choice([2, 3, 4, 5]),
                 nscales=rng.choice([1, 1, 2]), rweight=rng.choice([None, None, None, -1.0, 0.5]), resolution=rng.choice([None, 3, 10]),
                 weights=rng.random() < 0.6, count_rr=rng.random() < 0.5, rands=rng.choice(["both", "unk", "ref"]),
@@ -266,9 +272,18 @@ def run_l3_case(ctx, spec, cid, terms, metas):
     zmid = (edges[:-1] + edges[1:]) / 2
     # choose scales so that the angle at the lowest bin centre is ~theta0 degrees
     theta0 = spec.get("theta0") or rng.choice([0.2, 0.5, 1.0])  # degrees at the first bin centre
-    cosmo = yaw.cosmology.get_default_cosmology() if hasattr(yaw, "cosmology") else None
     from yaw.cosmology import get_default_cosmology
-    cosmo = get_default_cosmology()
+
+    def build_cosmo():
+        c = spec.get("cosmo")
+        if c is None:
+            return get_default_cosmology()
+        if c[0] == "flat":
+            from astropy.cosmology import FlatLambdaCDM
+            return FlatLambdaCDM(H0=c[1], Om0=c[2])
+        return get_default_cosmology().clone(H0=c[1])
+    cosmo = build_cosmo()              # the harness's own instance (never handed to the implementation)
+    cosmo_kw = {} if spec.get("cosmo") is None else {"cosmology": build_cosmo()}
     unit = spec["unit"]
     th = math.radians(theta0)
     if unit in ("kpc", "Mpc"):
@@ -282,7 +297,7 @@ def run_l3_case(ctx, spec, cid, terms, metas):
     rmaxs = [rmax * f for f in ([1.0] if spec["nscales"] == 1 else [0.5, 1.0])]
     rmins = [r * rng.choice([0.1, 0.25]) for r in rmaxs]
     cfg = yaw.Configuration.create(rmin=rmins, rmax=rmaxs, unit=unit, rweight=spec["rweight"], resolution=spec["resolution"],
-                                   edges=edges, closed=spec["closed"], max_workers=1)
+                                   edges=edges, closed=spec["closed"], max_workers=1, **cosmo_kw)
     # geometry: patch centres on a line, spacing relative to theta0
     npatch = spec["npatch"]
     spacing = theta0 * (spec.get("spacing_f") or rng.choice([0.8, 1.5, 2.5, 4.0]))
@@ -317,7 +332,7 @@ def run_l3_case(ctx, spec, cid, terms, metas):
     prior_cfg = None
     if spec.get("prior"):
         prior_cfg = yaw.Configuration.create(rmin=rmins, rmax=rmaxs, unit=unit, edges=edges,
-                                             closed="left" if spec["closed"] == "right" else "right", max_workers=1)
+                                             closed="left" if spec["closed"] == "right" else "right", max_workers=1, **cosmo_kw)
     try:
         if spec["auto"]:
             cats["data"] = make_catalog(ctx, "data", *sample(ref_n, ref_s, True), centers)
@@ -374,7 +389,29 @@ def run_l3_case(ctx, spec, cid, terms, metas):
     # per-bin configuration tables
     cfgs, theta_hi = [], []
     for b in range(spec["nbins"]):
-        amin, amax = cfg.scales.scales.get_angle_radian(zmid[b], cosmology=cfg.cosmology)
+        amin_i, amax_i = cfg.scales.scales.get_angle_radian(zmid[b], cosmology=cfg.cosmology)
+        # the same conversion written out here (options.Unit: angles; physical = transverse proper distance;
+        # comoving = transverse comoving distance in Mpc), on the harness's own cosmology instance
+        if unit in ("kpc", "Mpc"):
+            dmpc = float(cosmo.angular_diameter_distance(float(zmid[b])).value)
+        elif unit in ("kpc/h", "Mpc/h"):
+            dmpc = float(cosmo.comoving_distance(float(zmid[b])).value)
+        else:
+            dmpc = None
+        if dmpc is None:
+            f = {"rad": 1.0, "deg": math.pi / 180.0, "arcmin": math.pi / 180.0 / 60.0, "arcsec": math.pi / 180.0 / 3600.0}[unit]
+            amin, amax = np.asarray(rmins, dtype=float) * f, np.asarray(rmaxs, dtype=float) * f
+        else:
+            k = 1000.0 if unit.startswith("kpc") else 1.0
+            amin, amax = np.asarray(rmins, dtype=float) / k / dmpc, np.asarray(rmaxs, dtype=float) / k / dmpc
+        if not (np.allclose(amin, np.atleast_1d(amin_i), rtol=1e-11, atol=0) and np.allclose(amax, np.atleast_1d(amax_i), rtol=1e-11, atol=0)):
+            ctx.fail("c01-scale-angle-wrong",
+                     "the angles the measurement uses for bin centre z=%.6g (%s .. %s rad) are not scale / distance for the configured "
+                     "cosmology (%s .. %s rad; unit %s, cosmology %s)" % (zmid[b], np.atleast_1d(amin_i).tolist(), np.atleast_1d(amax_i).tolist(),
+                                                                          amin.tolist(), amax.tolist(), unit, spec.get("cosmo") or "default"),
+                     dict(spec=spec, bin=b), case=cid)
+        else:
+            amin, amax = np.atleast_1d(amin_i), np.atleast_1d(amax_i)   # identical up to the last bits: keep the implementation's floats
         wres = cfg.scales.resolution
         if wres is None:  # the counting function's own default applies
             import inspect
